@@ -51,7 +51,7 @@ type Case struct {
 	ID        string `json:"id"`
 	Level     string `json:"log_level"`  // error | info | debug
 	Format    string `json:"log_format"` // text | json
-	LogHTTP   string `json:"log_http"`   // none | short-url | url | errors
+	LogHTTP   string `json:"log_http"`   // none | short-url | url | errors (the proxy module's mode; of every module when LogHTTPSpec is absent)
 	LogTo     string `json:"log_to"`     // stdout | file
 	ConfigFmt string `json:"config_fmt"` // yaml | json | toml
 	// Source says, per secret-bearing flag, how it reaches the process: flag | env | file
@@ -93,6 +93,11 @@ type Case struct {
 	Layouts     map[string]string `json:"layouts,omitempty"`
 	FileQuoting string            `json:"file_quoting,omitempty"`
 	KeyAlg      string            `json:"key_alg,omitempty"`
+
+	// LogHTTPSpec: the api module's mode, the form --log-http is written in and its source; History: the
+	// bursts of exchanges played after the fault phase (history.go)
+	LogHTTPSpec *LogHTTPSpec `json:"log_http_spec,omitempty"`
+	History     []HistStep   `json:"history,omitempty"`
 
 	Secrets [2]SecretSet `json:"secrets"`
 }
@@ -218,6 +223,8 @@ func genConfig(r *core.Rand, i int) *Case {
 	}
 	c.Stall = r.Chance(20)
 	genLayouts(r, c)
+	genLogHTTP(r, c)
+	genHistory(r, c)
 	return c
 }
 
@@ -347,10 +354,12 @@ func fileValue(style, layout, name string, content []byte, dir string, files map
 
 // laidPayload is what follows the "data:[base64,]" prefix of an inline value.
 func laidPayload(raw string) string {
-	if i := strings.Index(raw, "data:"); i >= 0 {
+	if isDataURI(raw) {
+		raw = raw[5:] // data: in any spelling
+	} else if i := strings.Index(raw, "data:"); i >= 0 {
 		raw = raw[i+5:]
 	} else if len(raw) > 5 {
-		raw = raw[5:] // DATA: / Data:
+		raw = raw[5:]
 	}
 	if i := strings.IndexByte(raw, ','); i >= 0 && i < 40 {
 		raw = raw[i+1:]
@@ -524,7 +533,7 @@ func assemble(c *Case, k int, ep endpoints, dir, paddr, aaddr string) *plan {
 
 	// non-secret flags always travel on the command line
 	p.Args = []string{"run", "--address", paddr, "--api-address", aaddr, "--proxy-localhost", "allow",
-		"--log-level", c.Level, "--log-format", c.Format, "--log-http", c.LogHTTP, "--name", proxyName,
+		"--log-level", c.Level, "--log-format", c.Format, "--name", proxyName,
 		"--http-dial-attempts", "1", "--shutdown-timeout", "2s", "--api-shutdown-timeout", "2s"}
 	if c.LogTo == "file" {
 		p.Args = append(p.Args, "--log-file", dir+"/forwarder.log")
@@ -551,6 +560,7 @@ func assemble(c *Case, k int, ep endpoints, dir, paddr, aaddr string) *plan {
 	}
 	p.Env = []string{"PATH=/usr/bin:/bin", "HOME=" + dir, "GOMAXPROCS=4"}
 	fileVals := map[string]any{}
+	logHTTPSettings(c, p, fileVals)
 	for _, st := range p.Settings {
 		switch c.Source[st.Flag] {
 		case "env":
